@@ -83,6 +83,8 @@ class C20(PropBase):
             for y in adj.get(x, ()):
                 if y not in seen:
                     seen.add(y); todo.append(y)
+        if violation is None:   # the same query under other names, and on a graph whose nodes are counterfactual variables of one world
+            violation = GG.renamed_differs(case, o1, lambda: call(g, a, b, C)[0], cf_nodes=True)
         return {"out": [o1, o2], "violation": violation,
                 "nontrivial": b in seen and (bool(C) or bool(g["bid"]) or not acyc),
                 "features": ["acyclic" if acyc else "cyclic", f"n={len(g['nodes'])}", f"|C|={len(C)}", f"sep={o1}", "adjacent" if adjacent else "non-adjacent"],
